@@ -27,6 +27,9 @@ spec fn only_changed(a: World, b: World, p: Seq<char>, q: Seq<char>) -> bool {
             (a.files.contains_key(x) == b.files.contains_key(x) && (a.files.contains_key(x) ==> a.files[x] == b.files[x]))
 }
 
+// the primitive failed: nothing changed but the count of failed primitives
+spec fn failed_step(a: World, b: World) -> bool { b == (World { faults: a.faults + 1, ..a }) }
+
 struct IoError { x: u8 }
 
 trait FileOps : Sized {
@@ -38,7 +41,8 @@ trait FileOps : Sized {
             old(w).files.contains_key(old(self).path()),
         ensures final(self).path() == old(self).path(), only_changed(*old(w), *final(w), old(self).path(), old(self).path()),
             final(w).files.contains_key(old(self).path()),
-            r is Ok ==> final(w).files[old(self).path()].content == old(w).files[old(self).path()].content + buf@;
+            r is Ok ==> final(w).files[old(self).path()].content == old(w).files[old(self).path()].content + buf@ && final(w).faults == old(w).faults,
+            r is Err ==> final(w).faults == old(w).faults + 1;
     fn read_to_end(&mut self, buf: &mut Vec<u8>) -> (r: Result<usize, IoError>)
         ensures r is Ok ==> final(buf)@ == old(buf)@ + old(self).content();
 }
@@ -56,8 +60,8 @@ trait System : Sized + Clone
     fn create_file(&mut self, path: &str, Tracked(w): Tracked<&mut World>) -> (r: Result<Self::File, SystemError>)
         requires state_kind(path@) == 0,     //# O-H-atomic-create [C11]
         ensures only_changed(*old(w), *final(w), path@, path@),
-            r matches Ok(f) ==> f.path() == path@ && final(w).files.contains_key(path@) && final(w).files[path@].content == Seq::<u8>::empty(),
-            r is Err ==> *final(w) == *old(w);
+            r matches Ok(f) ==> f.path() == path@ && final(w).files.contains_key(path@) && final(w).files[path@].content == Seq::<u8>::empty() && final(w).faults == old(w).faults,
+            r is Err ==> failed_step(*old(w), *final(w));
 
     fn is_file(&self, path: &str, Tracked(w): Tracked<&mut World>) -> (r: bool)
         ensures *final(w) == *old(w), r == old(w).files.contains_key(path@);
@@ -68,11 +72,12 @@ trait System : Sized + Clone
     // a crash point that leaves every file as it was: only the set of directories may grow, by this one path
     fn create_dir(&mut self, path: &str, Tracked(w): Tracked<&mut World>) -> (r: Result<(), SystemError>)
         ensures same_consts(*old(w), *final(w)), final(w).files == old(w).files, final(w).execs == old(w).execs,
-            r is Ok ==> final(w).dirs == old(w).dirs.insert(path@), r is Err ==> final(w).dirs == old(w).dirs;
+            r is Ok ==> final(w).dirs == old(w).dirs.insert(path@) && final(w).faults == old(w).faults,
+            r is Err ==> final(w).dirs == old(w).dirs && final(w).faults == old(w).faults + 1;
 
     fn rename(&mut self, from: &str, to: &str, Tracked(w): Tracked<&mut World>) -> (r: Result<(), SystemError>)
         requires old(w).files.contains_key(from@) ==> decodes_as(state_kind(to@), old(w).files[from@].content),     //# O-H-atomic-rename [C11]
         ensures only_changed(*old(w), *final(w), from@, to@),
-            r is Ok ==> old(w).files.contains_key(from@) && final(w).files.contains_key(to@) && final(w).files[to@] == old(w).files[from@] && (from@ != to@ ==> !final(w).files.contains_key(from@)),
-            r is Err ==> *final(w) == *old(w);
+            r is Ok ==> old(w).files.contains_key(from@) && final(w).files.contains_key(to@) && final(w).files[to@] == old(w).files[from@] && (from@ != to@ ==> !final(w).files.contains_key(from@)) && final(w).faults == old(w).faults,
+            r is Err ==> failed_step(*old(w), *final(w));
 }
